@@ -22,8 +22,8 @@ INT_RANGE = {"int8": (-2**7, 2**7 - 1), "int16": (-2**15, 2**15 - 1), "int32": (
 
 # length regions of variable-length fields (bytes); boundaries = varint size steps and the
 # legacy int16 limit.  Inside a region the length is symbolic.
-REGIONS_ALL = [(0, 126), (127, 16382), (32768, 2**21 - 2), (16383, 32767), (2**21 - 1, 2**28 - 2), (2**28 - 1, 2**31 - 1)]
-REGIONS_QUICK = REGIONS_ALL[:3]
+REGIONS_ALL = [(0, 126), (127, 16382), (16383, 2**21 - 2), (2**21 - 1, 2**28 - 2), (2**28 - 1, 2**31 - 1)]
+REGIONS_QUICK = REGIONS_ALL[:3]  # every length below 2^21 (the legacy int16 limit is a fork inside the third region)
 
 MS = datetime.timedelta(milliseconds=1)
 TD32_REPS = [datetime.timedelta(milliseconds=1234), datetime.timedelta(0), datetime.timedelta(milliseconds=-1),
